@@ -107,6 +107,7 @@ def data_strategy(draw: Any, allow_empty: bool = False) -> dict[str, Any]:
     data["user"] = user
     if d(st.integers(0, 3)) == 0:
         data["z"] = None
+    data["a b"] = data["a-b"]  # only reachable as ['a b'] (Cfg.spaced_names)
     return data
 
 
@@ -255,6 +256,9 @@ class Cfg:
     strings: Any = None  # override strategy for string literals
     inspect_captures: bool = True  # allow size/slice/... on captured text
     range_vars: bool = True  # allow (small) variables as range bounds
+    indirect_root: bool = False  # `[key]` / `[key].size`: the root of a path named by another variable
+    huge_floats: bool = False  # float literals beyond the double range (1.5e999)
+    spaced_names: bool = False  # the data variable "a b", which can only be written as ['a b']
 
 
 WS_CHARS = " \t\n\r\x0b\x0c\x1c\x1d\x1e\x1f\x85\xa0        　"
@@ -280,6 +284,8 @@ class Gen:
             self._data = None
         self.cfg = cfg
         self.scope: dict[str, str] = dict(SCHEMA)
+        if cfg.spaced_names:
+            self.scope["a b"] = "int"
         self.budget = cfg.budget
         self.macros: dict[str, list[tuple[str, bool]]] = {}
         self.partials: dict[str, list[dict[str, Any]]] = {}
@@ -349,7 +355,8 @@ class Gen:
             return ["int", self.draw(any_ints)]
         if want == "float":
             return ["float", self.pick(["1.5", "0.25", "-2.0", "10.125", "3.0", "1e-2", "2.5E+1", "1.50", "1.0e16", "2.5e20",
-                                        "1e-7", "-0.0", "123456789.125"])]
+                                        "1e-7", "-0.0", "123456789.125"]
+                                       + (["1.5e999", "-2.0e400", "1e-999"] if self.cfg.huge_floats else []))]
         if want == "num":
             return self.literal(self.pick(["int", "int", "float"]))
         if want in ("str", "datefmt", "date", "key"):
@@ -422,10 +429,14 @@ class Gen:
                 opts.append(("pair", name))
             if (ty in LIST_TYPES or ty in ("str", "hash:user", "hash:item")) and compatible("int", want):
                 opts.append(("n", name, "size"))
+        if self.cfg.indirect_root and "key" in sc and depth > 0 and want in ("any", "str", "scalar"):
+            opts.append(("iroot", "key"))
         if not opts:
             return None
         o = self.pick(opts)
         kind, name = o[0], o[1]
+        if kind == "iroot":
+            return ["path", ["path", name, []], [] if self.p(0.7) else [["n", "size"]]]
         if kind == "root":
             return ["path", name, []]
         if kind == "idx_n":
@@ -645,7 +656,7 @@ class Gen:
         if k == "array":
             return "list"
         if k == "path":
-            ty = self.scope.get(e[1], "any")
+            ty = self.scope.get(e[1], "any") if isinstance(e[1], str) else "any"
             for seg in e[2]:
                 if seg[0] == "n" and seg[1] == "size":
                     ty = "int"
